@@ -144,6 +144,25 @@ int main (int argc, char** argv)
         if (out) { snprintf (what, 240, "correlation %.6g outside the admissible range [%.6g, %.6g] of indices (%g, %g) is rejected", rho, lo, hi, b0, b1); expect_true (what, thrown); }
         else { snprintf (what, 240, "correlation %.6g inside the admissible range [%.6g, %.6g] of indices (%g, %g) is accepted with finite factors", rho, lo, hi, b0, b1); expect_true (what, !thrown && std::isfinite (fA) && std::isfinite (fB)); }
       } } }, 1);
+  // weak and strong modulation alike: the pair delivered for the scripted deviates (1,0) and (0,1) exposes the mixing matrix R
+  // (log factor + sigma^2/2 = R z); R R^T must be the log-space covariance [[s0^2, log(rho b0 b1 + 1)], [., s1^2]] that yields the
+  // requested indices and correlation, at a relative accuracy of 1e-7 (the factors pass through exp and log in binary64)
+  fn ("lognormal_mixing_plain", [&] {
+    const double idx[][2] = { {1,1}, {0.3,2}, {0.01,0.01}, {1e-3,1e-3}, {1e-4,1e-2}, {1e-5,1e-5}, {1e-4,1.0}, {3,0.5} };
+    for (auto& b : idx) for (double fq : { 0.0, 0.5, -0.3, 0.9, -0.9 }) {
+      double b0 = b[0], b1 = b[1]; double s0 = std::sqrt (std::log (b0*b0 + 1)), s1 = std::sqrt (std::log (b1*b1 + 1));
+      double lo = (std::exp (-s0*s1) - 1.0) / (b0*b1), hi = (std::exp (s0*s1) - 1.0) / (b0*b1); double rho = fq >= 0 ? fq * hi : - fq * lo;
+      double R[2][2];
+      for (int col=0; col<2; col++) { gauss_reset (); gauss_queue.push_back (col == 0 ? 1.0 : 0.0); gauss_queue.push_back (col == 0 ? 0.0 : 1.0);
+        bivariate_lognormal_modes* c = new bivariate_lognormal_modes (rho); c->set_beta (0, b0); c->set_beta (1, b1); c->set_normal (&gasdev);
+        modulated_mode* A = c->get_modulated_mode (0, new mode); modulated_mode* B = c->get_modulated_mode (1, new mode);
+        double fA = A->modulation (), fB = B->modulation (); R[0][col] = std::log (fA) + 0.5*s0*s0; R[1][col] = std::log (fB) + 0.5*s1*s1; }
+      double c00 = R[0][0]*R[0][0] + R[0][1]*R[0][1], c11 = R[1][0]*R[1][0] + R[1][1]*R[1][1], c01 = R[0][0]*R[1][0] + R[0][1]*R[1][1];
+      double w01 = std::log (rho * b0 * b1 + 1.0); char what[240];
+      snprintf (what, 240, "indices (%g, %g), correlation %g: the mixing matrix reproduces the log-space variance of mode A", b0, b1, rho); expect_true (what, std::fabs (c00 - s0*s0) <= 1e-7 * s0*s0);
+      snprintf (what, 240, "indices (%g, %g), correlation %g: the mixing matrix reproduces the log-space variance of mode B", b0, b1, rho); expect_true (what, std::fabs (c11 - s1*s1) <= 1e-7 * s1*s1);
+      snprintf (what, 240, "indices (%g, %g), correlation %g: the mixing matrix reproduces the log-space covariance", b0, b1, rho); expect_true (what, std::fabs (c01 - w01) <= 1e-7 * s0*s1 + 1e-300);
+    } }, 1);
 #endif
 
   symx::finish ();
